@@ -11,6 +11,8 @@ OBLIGATIONS = [NS + t for t in [
     "index_lt_size", "unindex_index", "index_unindex", "valid_unindex", "index_injective",
     "index_append", "subview_in_bounds", "sub_get", "sub_wf", "slice_get", "slice_wf",
     "reshape_size", "reshape_wf", "reshape_rejects_negative", "gather_dims", "gather_get",
+    "keptRows_eq_filter", "removeIf_eq_filter", "removeIf_eq_gather",
+    "integralData_spec", "integral_eq_prefix_sums", "integral_rank1", "integral_rank2",
 ]]
 TRUSTED = [
     "Lean 4.33.0 kernel (core library only for this property; no Mathlib import)",
